@@ -608,6 +608,15 @@ func (reqDom) Exec(a []string) string {
 		if os.Getenv("VERIF_DEBUG") != "" {
 			s.SetLogger(logger.NewStdLogger().SetTrace(true))
 		}
+		// what is logged, and where to, makes no difference to any response: no logger at all, and
+		// no logger but an error callback, for two of the connection ids
+		switch cid {
+		case "c d":
+			s.SetLogger(nil)
+		case "cid2":
+			s.SetLogger(nil)
+			s.SetOnError(func(*res.Service, string) {})
+		}
 		s.SetWorkerCount(2)
 		n, _ := strconv.Atoi(nls)
 		firstAdd := 0
